@@ -1,247 +1,87 @@
-(* C16: a whole callback expression containing repeated-metric leaves agrees with the documented
-   Boolean meaning (psem) at every epoch, provided every stateful leaf is evaluated at every
-   epoch (no stateful leaf behind a short-circuiting position) from the first epoch on and both
-   histories grow by one entry per epoch. *)
+(* C16: since the repair of _RepeatedMetricChange every callback expression -- stateless or not,
+   with repeated-metric leaves anywhere, also behind short-circuiting operands of & and | --
+   has, at every evaluation, exactly its documented Boolean meaning (psem): the value depends on
+   the solver view only, never on the cached counters, hence never on when the callback was
+   created, to which fit() calls it was passed, or which operands were skipped earlier. *)
 From Coq Require Import ZArith List Bool Lia.
 From ND.model Require Import Callbacks.
 From ND.proofs Require Import C16_pred C16_actions.
 Import ListNotations.
 Open Scope Z_scope.
 
-(* every counter equals the streak of the history it watches *)
-Fixpoint synced (ht hv : list Z) (p : pred) {struct p} : Prop :=
-  match p with
-  | PAnd l | POr l | PXor l =>
-      (fix all (l : list pred) : Prop := match l with [] => True | q :: r => synced ht hv q /\ all r end) l
-  | PNot q => synced ht hv q
-  | PRepeated k tr n s => s = Z.of_nat (streak (rel_of k) (if tr then ht else hv))
-  | _ => True
-  end.
-
-(* every stateful leaf is reached at every evaluation: below & and | only the FIRST operand
-   may contain state (the others may be skipped); ^ and ~ always evaluate all operands *)
-Fixpoint always_eval (p : pred) {struct p} : bool :=
-  match p with
-  | PAnd l | POr l => match l with [] => true | q :: r => always_eval q && forallb stateless r end
-  | PXor l => (fix all (l : list pred) : bool := match l with [] => true | q :: r => always_eval q && all r end) l
-  | PNot q => always_eval q
-  | _ => true
-  end.
-
-Fixpoint fresh (p : pred) {struct p} : bool :=
-  match p with
-  | PAnd l | POr l | PXor l => (fix all (l : list pred) : bool := match l with [] => true | q :: r => fresh q && all r end) l
-  | PNot q => fresh q
-  | PRepeated _ _ _ s => s =? 0
-  | _ => true
-  end.
-
-Lemma synced_list : forall ht hv l,
-  (fix all (l : list pred) : Prop := match l with [] => True | q :: r => synced ht hv q /\ all r end) l
-  <-> Forall (synced ht hv) l.
+Lemma and_loop_value_psem : forall v l,
+  Forall (fun q => cond v q = psem v q) l -> fst (and_loop v l) = forallb (psem v) l.
 Proof.
-  intros ht hv. induction l as [|q r IH]; [split; [constructor|trivial]|].
-  split.
-  - intros [H1 H2]. constructor; [exact H1|apply IH; exact H2].
-  - intros H. inversion H; subst. split; [assumption|apply IH; assumption].
+  intros v l HF. rewrite and_loop_value. induction HF as [|q r Hq _ IH]; [reflexivity|].
+  cbn [forallb]. rewrite Hq, IH. reflexivity.
 Qed.
 
-Lemma synced_and : forall ht hv l, synced ht hv (PAnd l) <-> Forall (synced ht hv) l.
-Proof. intros ht hv l. apply (synced_list ht hv l). Qed.
-Lemma synced_or : forall ht hv l, synced ht hv (POr l) <-> Forall (synced ht hv) l.
-Proof. intros ht hv l. apply (synced_list ht hv l). Qed.
-Lemma synced_xor : forall ht hv l, synced ht hv (PXor l) <-> Forall (synced ht hv) l.
-Proof. intros ht hv l. apply (synced_list ht hv l). Qed.
-
-Lemma always_eval_xor : forall l, always_eval (PXor l) = forallb always_eval l.
-Proof. induction l as [|q r IH]; [reflexivity|]. cbn [forallb]. rewrite <- IH. reflexivity. Qed.
-
-Lemma fresh_list : forall l,
-  (fix all (l : list pred) : bool := match l with [] => true | q :: r => fresh q && all r end) l = forallb fresh l.
-Proof. induction l as [|q r IH]; [reflexivity|]. cbn [forallb]. rewrite <- IH. reflexivity. Qed.
-
-Lemma stateless_synced : forall ht hv p, stateless p = true -> synced ht hv p.
+(* tree_spec: the value of condition() is the documented meaning, for EVERY tree and state *)
+Theorem tree_spec : forall p v, cond v p = psem v p.
 Proof.
-  intros ht hv.
-  apply (pred_ind_nested (fun p => stateless p = true -> synced ht hv p)); try (intros; exact I).
-  - intros l HF Hs. rewrite stateless_and in Hs. apply synced_and.
-    rewrite forallb_forall in Hs. rewrite Forall_forall in *. intros q Hq. apply HF; [exact Hq|apply Hs; exact Hq].
-  - intros l HF Hs. rewrite stateless_or in Hs. apply synced_or.
-    rewrite forallb_forall in Hs. rewrite Forall_forall in *. intros q Hq. apply HF; [exact Hq|apply Hs; exact Hq].
-  - intros q IH Hs. cbn [stateless] in Hs. cbn [synced]. apply IH. exact Hs.
-  - intros l HF Hs. rewrite stateless_xor in Hs. apply synced_xor.
-    rewrite forallb_forall in Hs. rewrite Forall_forall in *. intros q Hq. apply HF; [exact Hq|apply Hs; exact Hq].
-  - intros k tr n s Hs. discriminate Hs.
+  intros p v. revert p.
+  apply (pred_ind_nested (fun p => cond v p = psem v p)); try (intros; reflexivity).
+  - intros l HF. rewrite and_spec, psem_and. induction HF as [|q r Hq _ IH]; [reflexivity|].
+    cbn [forallb]. rewrite Hq, IH. reflexivity.
+  - intros l HF. rewrite or_spec, psem_or. induction HF as [|q r Hq _ IH]; [reflexivity|].
+    cbn [existsb]. rewrite Hq, IH. reflexivity.
+  - intros q IH. rewrite not_spec, IH. reflexivity.
+  - intros l HF. rewrite xor_spec, psem_xor. f_equal. induction HF as [|q r Hq _ IH]; [reflexivity|].
+    cbn [map]. rewrite Hq, IH. reflexivity.
+  - intros k tr n s. unfold cond. cbn [step fst psem]. apply leaf_fires.
 Qed.
 
-Lemma stateless_list_synced : forall ht hv l, forallb stateless l = true -> Forall (synced ht hv) l.
+(* evaluating a callback changes cached counters only, which psem never reads *)
+Lemma psem_after_step : forall p v w, psem w (snd (step v p)) = psem w p.
 Proof.
-  intros ht hv l Hs. rewrite forallb_forall in Hs. apply Forall_forall. intros q Hq.
-  apply stateless_synced. apply Hs. exact Hq.
+  intros p. apply (pred_ind_nested (fun p => forall v w, psem w (snd (step v p)) = psem w p));
+    try (intros; reflexivity).
+  - intros l HF v w. rewrite step_and. destruct (and_loop v l) as [b l'] eqn:E. cbn [snd].
+    rewrite !psem_and. revert b l' E. induction HF as [|q t Hq _ IHt]; intros b l' E.
+    + cbn [and_loop] in E. injection E as _ E. subst. reflexivity.
+    + cbn [and_loop] in E. specialize (Hq v w). destruct (step v q) as [c q']. cbn [snd] in Hq.
+      destruct c.
+      * destruct (and_loop v t) as [b' t'] eqn:Et. injection E as _ E. subst.
+        cbn [forallb]. rewrite Hq, (IHt b' t' eq_refl). reflexivity.
+      * injection E as _ E. subst. cbn [forallb]. rewrite Hq. reflexivity.
+  - intros l HF v w. rewrite step_or. destruct (or_loop v l) as [b l'] eqn:E. cbn [snd].
+    rewrite !psem_or. revert b l' E. induction HF as [|q t Hq _ IHt]; intros b l' E.
+    + cbn [or_loop] in E. injection E as _ E. subst. reflexivity.
+    + cbn [or_loop] in E. specialize (Hq v w). destruct (step v q) as [c q']. cbn [snd] in Hq.
+      destruct c.
+      * injection E as _ E. subst. cbn [existsb]. rewrite Hq. reflexivity.
+      * destruct (or_loop v t) as [b' t'] eqn:Et. injection E as _ E. subst.
+        cbn [existsb]. rewrite Hq, (IHt b' t' eq_refl). reflexivity.
+  - intros q Hq v w. rewrite step_not. specialize (Hq v w). destruct (step v q) as [c q'].
+    cbn [snd psem] in *. rewrite Hq. reflexivity.
+  - intros l HF v w. rewrite step_xor. destruct (xor_loop v l) as [n l'] eqn:E. cbn [snd].
+    rewrite !psem_xor. f_equal. revert n l' E. induction HF as [|q t Hq _ IHt]; intros n l' E.
+    + cbn [xor_loop] in E. injection E as _ E. subst. reflexivity.
+    + cbn [xor_loop] in E. specialize (Hq v w). destruct (step v q) as [c q']. cbn [snd] in Hq.
+      destruct (xor_loop v t) as [n' t'] eqn:Et. injection E as _ E. subst.
+      cbn [map]. rewrite Hq, (IHt n' t' eq_refl). reflexivity.
 Qed.
 
-Lemma stateless_facts : forall v l,
-  Forall (fun q => stateless q = true -> step v q = (psem v q, q)) l.
-Proof. intros v l. apply Forall_forall. intros q _ Hs. apply stateless_spec. exact Hs. Qed.
-
-Lemma fresh_synced : forall p, fresh p = true -> synced [] [] p.
+(* repeated_tree_spec, FULL strength: any callback expression in any state, evaluated on ANY
+   sequence of solver views (any subset of the epochs, any fit() calls): at every evaluation it
+   fires iff its documented Boolean meaning holds for the view of that evaluation. *)
+Theorem repeated_tree_spec : forall vs p, fst (run_pred p vs) = map (fun v => psem v p) vs.
 Proof.
-  apply (pred_ind_nested (fun p => fresh p = true -> synced [] [] p)); try (intros; exact I).
-  - intros l HF Hs. cbn [fresh] in Hs. rewrite fresh_list in Hs. apply synced_and.
-    rewrite forallb_forall in Hs. rewrite Forall_forall in *. intros q Hq. apply HF; [exact Hq|apply Hs; exact Hq].
-  - intros l HF Hs. cbn [fresh] in Hs. rewrite fresh_list in Hs. apply synced_or.
-    rewrite forallb_forall in Hs. rewrite Forall_forall in *. intros q Hq. apply HF; [exact Hq|apply Hs; exact Hq].
-  - intros q IH Hs. cbn [fresh] in Hs. cbn [synced]. apply IH. exact Hs.
-  - intros l HF Hs. cbn [fresh] in Hs. rewrite fresh_list in Hs. apply synced_xor.
-    rewrite forallb_forall in Hs. rewrite Forall_forall in *. intros q Hq. apply HF; [exact Hq|apply Hs; exact Hq].
-  - intros k tr n s Hs. cbn [fresh] in Hs. apply Z.eqb_eq in Hs. subst s. cbn [synced]. destruct tr; reflexivity.
+  induction vs as [|v r IH]; intros p; [reflexivity|].
+  cbn [run_pred map]. pose proof (tree_spec p v) as Hv. pose proof (psem_after_step p v) as Hs.
+  unfold cond in Hv. destruct (step v p) as [b p']. cbn [fst snd] in *.
+  specialize (IH p'). destruct (run_pred p' r) as [bs p'']. cbn [fst] in *.
+  rewrite Hv, IH. f_equal. apply map_ext. intros w. apply Hs.
 Qed.
 
-Section OneEpoch.
-  Variables (ht hv : list Z) (x y : Z) (v : view).
-  Hypothesis Htrain : v_train v = x :: ht.
-  Hypothesis Hvalid : v_valid v = y :: hv.
+(* what used to be the recorded deviations, now instances of the theorem *)
+Example late_attachment_ok :
+  cond (mkView 1 4 2 [4; 3; 2; 1] []) (repeated (RUp 0) true 2) = true.
+Proof. reflexivity. Qed.
 
-  Definition good (p : pred) : Prop :=
-    always_eval p = true -> synced ht hv p ->
-    exists p', step v p = (psem v p, p') /\ synced (x :: ht) (y :: hv) p' /\ always_eval p' = true.
-
-  Lemma xor_loop_good : forall l, Forall good l -> forallb always_eval l = true -> Forall (synced ht hv) l ->
-    exists l', snd (xor_loop v l) = l' /\ Z.odd (fst (xor_loop v l)) = parity (map (psem v) l) /\
-               Forall (synced (x :: ht) (y :: hv)) l' /\ forallb always_eval l' = true.
-  Proof.
-    intros l HF. induction HF as [|q r Hq _ IH]; intros Ha Hs.
-    - exists []. repeat split. constructor.
-    - cbn [forallb] in Ha. apply andb_true_iff in Ha. destruct Ha as [Ha1 Ha2].
-      inversion Hs as [|? ? Hs1 Hs2]; subst.
-      destruct (Hq Ha1 Hs1) as [q' [E1 [E2 E3]]]. destruct (IH Ha2 Hs2) as [r' [F1 [F2 [F3 F4]]]].
-      cbn [xor_loop map]. rewrite E1. destruct (xor_loop v r) as [n r0]. cbn [fst snd] in *. subst r0.
-      exists (q' :: r'). repeat split.
-      + unfold parity in *. cbn [fold_right]. rewrite odd_bit, F2. reflexivity.
-      + constructor; assumption.
-      + cbn [forallb]. rewrite E3, F4. reflexivity.
-  Qed.
-
-  Lemma one_epoch : forall p, good p.
-  Proof.
-    apply (pred_ind_nested good); unfold good;
-      try (intros; eexists; split; [reflexivity|split; [exact I|reflexivity]]).
-    - (* And *)
-      intros l HF Ha Hs. apply synced_and in Hs. rewrite step_and, psem_and.
-      destruct l as [|q r].
-      + exists (PAnd []). split; [reflexivity|]. split; [exact I|reflexivity].
-      + cbn [always_eval] in Ha. apply andb_true_iff in Ha. destruct Ha as [Ha1 Ha2].
-        inversion HF as [|? ? Hq _]; subst. inversion Hs as [|? ? Hs1 Hs2]; subst.
-        destruct (Hq Ha1 Hs1) as [q' [E1 [E2 E3]]].
-        cbn [and_loop forallb]. rewrite E1.
-        exists (PAnd (q' :: r)). destruct (psem v q); cbn [andb].
-        * rewrite (and_loop_stateless v r (stateless_facts v r) Ha2). split; [reflexivity|]. split.
-          -- apply synced_and. constructor; [exact E2|apply stateless_list_synced; exact Ha2].
-          -- cbn [always_eval]. rewrite E3, Ha2. reflexivity.
-        * split; [reflexivity|]. split.
-          -- apply synced_and. constructor; [exact E2|apply stateless_list_synced; exact Ha2].
-          -- cbn [always_eval]. rewrite E3, Ha2. reflexivity.
-    - (* Or *)
-      intros l HF Ha Hs. apply synced_or in Hs. rewrite step_or, psem_or.
-      destruct l as [|q r].
-      + exists (POr []). split; [reflexivity|]. split; [exact I|reflexivity].
-      + cbn [always_eval] in Ha. apply andb_true_iff in Ha. destruct Ha as [Ha1 Ha2].
-        inversion HF as [|? ? Hq _]; subst. inversion Hs as [|? ? Hs1 Hs2]; subst.
-        destruct (Hq Ha1 Hs1) as [q' [E1 [E2 E3]]].
-        cbn [or_loop existsb]. rewrite E1.
-        exists (POr (q' :: r)). destruct (psem v q); cbn [orb].
-        * split; [reflexivity|]. split.
-          -- apply synced_or. constructor; [exact E2|apply stateless_list_synced; exact Ha2].
-          -- cbn [always_eval]. rewrite E3, Ha2. reflexivity.
-        * rewrite (or_loop_stateless v r (stateless_facts v r) Ha2). split; [reflexivity|]. split.
-          -- apply synced_or. constructor; [exact E2|apply stateless_list_synced; exact Ha2].
-          -- cbn [always_eval]. rewrite E3, Ha2. reflexivity.
-    - (* Not *)
-      intros q IH Ha Hs. cbn [always_eval] in Ha. cbn [synced] in Hs.
-      destruct (IH Ha Hs) as [q' [E1 [E2 E3]]]. rewrite step_not, E1.
-      exists (PNot q'). split; [reflexivity|]. split; assumption.
-    - (* Xor *)
-      intros l HF Ha Hs. apply synced_xor in Hs. rewrite always_eval_xor in Ha.
-      destruct (xor_loop_good l HF Ha Hs) as [l' [F1 [F2 [F3 F4]]]].
-      rewrite step_xor, psem_xor. destruct (xor_loop v l) as [n l0]. cbn [fst snd] in *. subst l0.
-      exists (PXor l'). rewrite mod2_odd, F2. split; [reflexivity|]. split.
-      + apply synced_xor. exact F3.
-      + rewrite always_eval_xor. exact F4.
-    - (* Repeated *)
-      intros k tr n s _ Hs. cbn [synced] in Hs. subst s.
-      exists (snd (step v (PRepeated k tr n (Z.of_nat (streak (rel_of k) (if tr then ht else hv)))))).
-      cbn [step snd psem]. unfold hist_of. destruct tr.
-      * rewrite Htrain, (so_far_step_streak (rel_of k) ht x). split; [reflexivity|]. split; reflexivity.
-      * rewrite Hvalid, (so_far_step_streak (rel_of k) hv y). split; [reflexivity|]. split; reflexivity.
-  Qed.
-End OneEpoch.
-
-(* views of consecutive epochs: both histories grow by exactly one entry per view *)
-Fixpoint consecutive (ht hv : list Z) (vs : list view) : Prop :=
-  match vs with
-  | [] => True
-  | v :: r => exists x y, v_train v = x :: ht /\ v_valid v = y :: hv /\ consecutive (x :: ht) (y :: hv) r
-  end.
-
-Lemma run_synced : forall vs ht hv p,
-  always_eval p = true -> synced ht hv p -> consecutive ht hv vs ->
-  fst (run_pred p vs) = map (fun v => psem v p) vs.
-Proof.
-  induction vs as [|v r IH]; intros ht hv p Ha Hs Hc; [reflexivity|].
-  cbn [consecutive] in Hc. destruct Hc as [x [y [Ht [Hv Hc]]]].
-  destruct (one_epoch ht hv x y v Ht Hv p Ha Hs) as [p' [E1 [E2 E3]]].
-  cbn [run_pred map]. rewrite E1.
-  specialize (IH (x :: ht) (y :: hv) p' E3 E2 Hc).
-  destruct (run_pred p' r) as [bs p'']. cbn [fst] in *. rewrite IH. f_equal.
-  (* psem does not read the counters: p and p' differ only there *)
-  clear - E1. revert r. intros r. apply map_ext_in. intros w _.
-  revert p p' E1. generalize v.
-  assert (G : forall p v0 w0, psem w0 (snd (step v0 p)) = psem w0 p).
-  { intros p0. apply (pred_ind_nested (fun p => forall v0 w0, psem w0 (snd (step v0 p)) = psem w0 p));
-      try (intros; reflexivity).
-    - intros l HF v0 w0. rewrite step_and. destruct (and_loop v0 l) as [b l'] eqn:E. cbn [snd].
-      rewrite !psem_and. revert b l' E. induction HF as [|q t Hq _ IHt]; intros b l' E.
-      + cbn [and_loop] in E. injection E as _ E. subst. reflexivity.
-      + cbn [and_loop] in E. specialize (Hq v0 w0). destruct (step v0 q) as [c q']. cbn [snd] in Hq.
-        destruct c.
-        * destruct (and_loop v0 t) as [b' t'] eqn:Et. injection E as _ E. subst.
-          cbn [forallb]. rewrite Hq, (IHt b' t' eq_refl). reflexivity.
-        * injection E as _ E. subst. cbn [forallb]. rewrite Hq. reflexivity.
-    - intros l HF v0 w0. rewrite step_or. destruct (or_loop v0 l) as [b l'] eqn:E. cbn [snd].
-      rewrite !psem_or. revert b l' E. induction HF as [|q t Hq _ IHt]; intros b l' E.
-      + cbn [or_loop] in E. injection E as _ E. subst. reflexivity.
-      + cbn [or_loop] in E. specialize (Hq v0 w0). destruct (step v0 q) as [c q']. cbn [snd] in Hq.
-        destruct c.
-        * injection E as _ E. subst. cbn [existsb]. rewrite Hq. reflexivity.
-        * destruct (or_loop v0 t) as [b' t'] eqn:Et. injection E as _ E. subst.
-          cbn [existsb]. rewrite Hq, (IHt b' t' eq_refl). reflexivity.
-    - intros q Hq v0 w0. rewrite step_not. specialize (Hq v0 w0). destruct (step v0 q) as [c q'].
-      cbn [snd psem] in *. rewrite Hq. reflexivity.
-    - intros l HF v0 w0. rewrite step_xor. destruct (xor_loop v0 l) as [n l'] eqn:E. cbn [snd].
-      rewrite !psem_xor. f_equal. revert n l' E. induction HF as [|q t Hq _ IHt]; intros n l' E.
-      + cbn [xor_loop] in E. injection E as _ E. subst. reflexivity.
-      + cbn [xor_loop] in E. specialize (Hq v0 w0). destruct (step v0 q) as [c q']. cbn [snd] in Hq.
-        destruct (xor_loop v0 t) as [n' t'] eqn:Et. injection E as _ E. subst.
-        cbn [map]. rewrite Hq, (IHt n' t' eq_refl). reflexivity. }
-  intros v0 p p' E. specialize (G p v0 w). rewrite E in G. cbn [snd] in G. exact G.
-Qed.
-
-(* The theorem.  A fresh callback expression (all counters 0) in which every stateful leaf is
-   always evaluated, attached before the first epoch and evaluated once per epoch: at every
-   epoch it fires iff its documented Boolean meaning holds, where a repeated-metric leaf
-   means "the latest n consecutive history pairs satisfy the relation". *)
-Theorem repeated_tree_spec : forall p vs,
-  fresh p = true -> always_eval p = true -> consecutive [] [] vs ->
-  fst (run_pred p vs) = map (fun v => psem v p) vs.
-Proof.
-  intros p vs Hf Ha Hc. apply (run_synced vs [] [] p Ha (fresh_synced p Hf) Hc).
-Qed.
-
-Example tree_nonvacuous :
-  let p := PAnd [PNot (repeated (RDown 1) true 1); PIntLocal (Some 2) None] in
-  fresh p = true /\ always_eval p = true /\
-  consecutive [] [] [mkView 1 1 3 [5] [0]; mkView 2 2 3 [5; 5] [0; 0]; mkView 3 3 3 [3; 5; 5] [0; 0; 0]].
-Proof.
-  cbv zeta. repeat split. cbn [consecutive v_train v_valid].
-  exists 5, 0. repeat split. exists 5, 0. repeat split. exists 3, 0. repeat split.
-Qed.
+Example short_circuit_ok :
+  let p := POr [period_local 4 0; repeated (RUp 0) true 2] in
+  fst (run_pred p [mkView 1 1 5 [1] []; mkView 2 2 5 [2; 1] []; mkView 3 3 5 [3; 2; 1] [];
+                   mkView 4 4 5 [0; 3; 2; 1] []; mkView 5 5 5 [1; 0; 3; 2; 1] []])
+  = [false; false; true; true; false].
+Proof. reflexivity. Qed.
